@@ -27,3 +27,4 @@ Definition c28_holds (c : pcase) : bool := c28_walk (p_cfg c) (repeat 0 (nstages
 
 (* 0 agree & property holds; 1 model and implementation differ, property holds; 2 property fails on the implementation *)
 Definition judge_c28 (c : pcase) : Z := if negb (c28_holds c) then 2 else if agrees c then 0 else 1.
+Definition judge_c28n (c : pcase) : Z := if c28_holds c then 0 else 2.
